@@ -18,6 +18,7 @@ import (
 	"github.com/ipfs/go-graphsync"
 	gsimpl "github.com/ipfs/go-graphsync/impl"
 	gsmsg "github.com/ipfs/go-graphsync/message"
+	"github.com/ipfs/go-graphsync/peerstate"
 	cidlink "github.com/ipld/go-ipld-prime/linking/cid"
 	"github.com/ipld/go-ipld-prime/node/basicnode"
 	"github.com/libp2p/go-libp2p/core/peer"
@@ -55,6 +56,7 @@ type reqObs struct {
 	Desync          string     `json:"desync"`
 	Protected       []string   `json:"protected"`
 	CancelReturned  bool       `json:"cancelReturned"`
+	Wedged          bool       `json:"wedged"`
 	ApiCancelCalled bool       `json:"apiCancelCalled"`
 }
 
@@ -134,14 +136,56 @@ func runReqCase(c reqCase) (obs reqObs) {
 		}
 	}
 	startBlocked := len(c.Script) > 0 && c.Script[0].Ev == "blockedstart"
+	hasC := false
+	for _, e := range c.Script {
+		if e.Ev == "C" {
+			hasC = true
+		}
+	}
 	var optsA []gsimpl.Option
 	if startBlocked {
-		optsA = append(optsA, gsimpl.MaxInProgressOutgoingRequests(1))
+		w := uint64(1)
+		if hasC {
+			w = 2 // one more worker for the request that is outstanding at the third peer
+		}
+		optsA = append(optsA, gsimpl.MaxInProgressOutgoingRequests(w))
 	}
 	gsA := gsimpl.New(ctx, epA, stA.LinkSystem(), optsA...).(*gsimpl.GraphSync)
 	pZ := peer.ID("silent-Z")
 	epZ := net.Endpoint(ctx, pZ)
 	epZ.SetDelegate(&rawRecv{})
+	if hasC {
+		// the third peer is not a stranger: the requestor has another request outstanding with it (never answered)
+		ct := dagreal.Tree{N: 1, Par: []int{0, 0}, Dep: []int{0, 0}, Cid: []int{0, 1}}
+		cd, _ := dagreal.Build(ct, fmt.Sprintf("other%d", c.ID))
+		cp, ce := gsA.Request(ctx, pC, cidlink.Link{Cid: cd.Root}, sel)
+		go func() {
+			for cp != nil || ce != nil {
+				select {
+				case _, ok := <-cp:
+					if !ok {
+						cp = nil
+					}
+				case _, ok := <-ce:
+					if !ok {
+						ce = nil
+					}
+				}
+			}
+		}()
+		for i := 0; i < 2000; i++ {
+			sent := false
+			for _, s := range net.Log() {
+				if s.To == pC {
+					sent = true
+				}
+			}
+			if sent {
+				break
+			}
+			time.Sleep(100 * time.Microsecond)
+		}
+	}
 	var blockerCancel context.CancelFunc
 	blockerDone := make(chan struct{})
 	if startBlocked {
@@ -221,13 +265,46 @@ func runReqCase(c reqCase) (obs reqObs) {
 	reqID := graphsync.NewRequestID()
 	callerCtx, callerCancel := context.WithCancel(context.WithValue(ctx, graphsync.RequestIDContextKey{}, reqID))
 	defer callerCancel()
-	progress, errs := gsA.Request(callerCtx, pB, cidlink.Link{Cid: d.Root}, sel)
+	startSetup := false
+	for _, e := range c.Script {
+		if e.Ev == "setupstart" {
+			startSetup = true
+		}
+	}
+	gsA.RegisterOutgoingRequestHook(func(p peer.ID, r graphsync.RequestData, ha graphsync.OutgoingRequestHookActions) {
+		if startSetup && r.ID() == reqID {
+			gate("setup", 0)
+		}
+	})
+	type chans struct {
+		p <-chan graphsync.ResponseProgress
+		e <-chan error
+	}
+	reqReturned := make(chan chans, 1)
+	go func() {
+		p, e := gsA.Request(callerCtx, pB, cidlink.Link{Cid: d.Root}, sel)
+		reqReturned <- chans{p, e}
+	}()
+	var progress <-chan graphsync.ResponseProgress
+	var errs <-chan error
+	if !startSetup {
+		ch := <-reqReturned
+		progress, errs = ch.p, ch.e
+	}
 	// reader: the caller keeps reading both channels
 	var rmu sync.Mutex
 	delivered := map[string]bool{}
 	var gotErrs []string
 	closedP, closedE := false, false
 	go func() {
+		if startSetup {
+			select {
+			case ch := <-reqReturned:
+				progress, errs = ch.p, ch.e
+			case <-ctx.Done():
+				return
+			}
+		}
 		for progress != nil || errs != nil {
 			select {
 			case p, ok := <-progress:
@@ -274,7 +351,20 @@ func runReqCase(c reqCase) (obs reqObs) {
 			}
 		}
 	}()
-	barrier := func() { _ = gsA.PeerState(pB) }
+	inSetup := false // the manager's loop is busy inside the outgoing request hook: it cannot answer
+	wedged := false
+	barrier := func() {
+		if inSetup || wedged {
+			return
+		}
+		done := make(chan struct{})
+		go func() { _ = gsA.PeerState(pB); close(done) }()
+		select {
+		case <-done:
+		case <-time.After(3 * time.Second):
+			wedged = true // the request manager's loop no longer answers
+		}
+	}
 	// responder B: per incarnation, next block index
 	bNext := 1
 	bPrefix := 0 // metadata-only entries (blocks the requestor said it has) still owed for this incarnation
@@ -329,6 +419,9 @@ func runReqCase(c reqCase) (obs reqObs) {
 				continue
 			}
 			for _, r := range s.Msg.Requests() {
+				if r.ID() != reqID {
+					continue
+				}
 				ty := "new"
 				switch r.Type() {
 				case graphsync.RequestTypeCancel:
@@ -385,6 +478,11 @@ func runReqCase(c reqCase) (obs reqObs) {
 	cancelDone := make(chan struct{}, 1)
 	for i, e := range c.Script {
 		switch e.At {
+		case "setup":
+			if !waitGate("setup") {
+				obs.Desync = fmt.Sprintf("event %d: outgoing request hook never called", i)
+			}
+			inSetup = true
 		case "preload":
 			if !waitGate("storage") {
 				obs.Desync = fmt.Sprintf("event %d: executor never reached a local storage read", i)
@@ -398,12 +496,16 @@ func runReqCase(c reqCase) (obs reqObs) {
 			passGates(6 * time.Millisecond)
 			barrier()
 		}
-		if obs.Desync != "" {
+		if obs.Desync != "" || wedged {
 			break
 		}
 		drainNew()
 		switch e.Ev {
-		case "blockedstart":
+		case "blockedstart", "setupstart":
+		case "setupdone":
+			release("ok")
+			inSetup = false
+			barrier()
 		case "free":
 			if blockerCancel != nil {
 				blockerCancel()
@@ -461,6 +563,7 @@ func runReqCase(c reqCase) (obs reqObs) {
 	auto = true
 	mu.Unlock()
 	release("ok")
+	inSetup = false
 	go func() {
 		for {
 			select {
@@ -478,7 +581,7 @@ func runReqCase(c reqCase) (obs reqObs) {
 		return s + fmt.Sprint(len(net.Log()))
 	}
 	last, stableSince := "", time.Now()
-	for start := time.Now(); time.Since(start) < 3*time.Second; {
+	for start := time.Now(); time.Since(start) < 3*time.Second && !wedged; {
 		time.Sleep(3 * time.Millisecond)
 		barrier()
 		s := snapshot()
@@ -512,7 +615,11 @@ func runReqCase(c reqCase) (obs reqObs) {
 	mu.Unlock()
 	sort.Strings(obs.Hooks)
 	sort.Strings(obs.BlockHookPeers)
-	ps := gsA.PeerState(pB).OutgoingState
+	obs.Wedged = wedged
+	var ps peerstate.PeerState
+	if !wedged {
+		ps = gsA.PeerState(pB).OutgoingState
+	}
 	obs.St, obs.Task = "gone", "none"
 	if s, ok := ps.RequestStates[reqID]; ok {
 		obs.St = s.String()
